@@ -136,6 +136,13 @@ pub enum Ctl {
     DropOutput,
     /// Hosted only: `handle.stop()`. No-op for the client (it has no such operation).
     Stop,
+    /// A new session on new channels without a preceding `unlinked`. Hosted: the runtime's end of
+    /// the output channel is dropped and a local write fails, the agent asks for the downlink
+    /// again (`LinkRequest::Downlink`) and the harness answers with fresh channels
+    /// (`DownlinkChannel::connect`). Client: the task is replaced by a new one (what opening the
+    /// downlink again means for a stand-alone downlink). Only generated with
+    /// terminate_on_unlinked = false and while the hosted handle exists.
+    Reconnect,
 }
 
 impl Ctl {
@@ -144,6 +151,7 @@ impl Ctl {
             Ctl::DropWriters => "drop-writers",
             Ctl::DropOutput => "drop-output",
             Ctl::Stop => "handle-stop",
+            Ctl::Reconnect => "reconnect",
         }
     }
 }
@@ -368,6 +376,13 @@ impl RefState {
                 self.linked = None;
                 self.dead = true;
                 return Expect { phase, accept, legal: true };
+            }
+            DOp::C(Ctl::Reconnect) => {
+                // the fold restarts from scratch: the new session begins unlinked with no state,
+                // and no notification was received, so nothing fires
+                let legal = !self.term && !self.dead && !self.handle_dropped;
+                self.linked = None;
+                return Expect { phase, accept: vec![vec![]], legal };
             }
             DOp::C(c) => {
                 if *c == Ctl::DropWriters {
